@@ -49,7 +49,8 @@ def decode(names, kind, mask):
 
 
 # ------------------------------------------------------------------ tasks ----
-STIG = {"paraboloid": D.paraboloid, "plano_hyperbolic": D.plano_hyperbolic, "ellipsoid": D.ellipsoid}
+STIG = {"paraboloid": D.paraboloid, "plano_hyperbolic": D.plano_hyperbolic, "ellipsoid": D.ellipsoid,
+        "uv_projection": D.uv_projection}
 
 
 def _lens_of(task):
@@ -93,7 +94,7 @@ def run_task(task):
                     out.append((ev, dict(m, info=info)))
             elif what == "fftmtf":
                 ev, info = D.record_fftmtf(optic, field, wl, N, Gs, pupil=job.get("pupil", True),
-                                           ideal=(task["family"] == "stigmatic"), view=job.get("view", True))
+                                           ideal=(task["family"] == "stigmatic" and task.get("name") != "uv_projection"), view=job.get("view", True))
                 if ev is None:
                     out.append((None, dict(m, skip=info)))
                 else:
@@ -194,8 +195,10 @@ def build_tasks(ctx):
     tasks.append(dict(family="stigmatic", name="paraboloid", wls=[0.55], seed=ctx.seed + 1,
                       jobs=[job("psf", 33, 64, 0.55, full=False, npix=0),
                             job("psf", 31, 64, 0.55, full=False, npix=0)] +
-                           ([] if quick else [job("psf", 17, 64, 0.55, full=False, npix=0),
-                                              job("psf", 32, 63, 0.55, full=False, npix=0)])))
+                           ([] if quick else [job("psf", 17, 64, 0.55, full=False, npix=0)])))
+    # --- finite conjugates with the exit pupil behind the image (bundled UVProjectionLens) ------
+    tasks.append(dict(family="stigmatic", name="uv_projection", wls=[0.248], seed=ctx.seed + 3,
+                      jobs=[job("fftmtf", 32, 64, 0.248, pupil=False, view=True)]))
     # --- documented numeric max_freq of GeometricMTF --------------------------------------
     tasks.append(dict(family="stigmatic", name="plano_hyperbolic", wls=[0.55], seed=ctx.seed + 2,
                       jobs=[job("geomtf_numeric_max_freq", 16, 0, 0.55)]))
